@@ -6,6 +6,7 @@ import (
 	"fmt"
 	"os"
 	"sort"
+	"strconv"
 	"time"
 )
 
@@ -190,7 +191,14 @@ func cmdWorker(args []string) int {
 			prefix = plans[i]
 			sum.PlannedRuns++
 		}
+		// A run that does not come back is harness trouble (exit 2), never a verdict.
+		idx := i
+		wd := time.AfterFunc(runWatchdog(), func() {
+			fmt.Fprintf(os.Stderr, "watchdog: %s run %d (batch seed %d) still executing after %v of real time\n", c.ID, idx, *seed, runWatchdog())
+			os.Exit(2)
+		})
 		r := ExecSeeded(c, *tier, i, *seed, prefix, kf)
+		wd.Stop()
 		sum.Runs++
 		sum.Evals += r.Evals
 		sum.Events += int64(r.NEvents())
@@ -246,6 +254,14 @@ func cmdWorker(args []string) int {
 	sum.Keys, sum.States, sum.Fingerprints = setToSlice(keys), setToSlice(states), setToSlice(fps)
 	sum.WallS = time.Since(start).Seconds()
 	return writeJSON(*out, sum)
+}
+
+// runWatchdog is the real-time bound of one run (VERIF_RUN_WATCHDOG_S, default 600 s).
+func runWatchdog() time.Duration {
+	if v, err := strconv.Atoi(os.Getenv("VERIF_RUN_WATCHDOG_S")); err == nil && v > 0 {
+		return time.Duration(v) * time.Second
+	}
+	return 600 * time.Second
 }
 
 func setToSlice(m map[uint64]struct{}) []uint64 {
